@@ -1,6 +1,8 @@
 import VncModel.Basic.Proto
 import VncModel.Enc.Spec
 import VncModel.Enc.Server
+import VncModel.Enc.Tight
+import VncModel.Enc.TightSearch
 /-! Line-protocol driver for C01 (encoders).  The script is produced by vlib/props/c01.py from the
 observations of harness/c01.c (two-stage pipeline: real server -> python undoes zlib/LZO with its
 own persistent streams -> this driver).
@@ -18,6 +20,9 @@ ops:
   split corre MW MH x y w h [x y w h ...]          rfbSendRectEncodingCoRRE's splitting of the given
                                                    rectangles -> "rects x,y,w,h ..."
   split zlib x y w h [x y w h ...]                 row splitting of zlib.c / ultra.c
+  tightplan LAST SB x y w h RAWHEX                 SendRectEncodingTight's pieces for one region rectangle
+                                                   (LAST = LastRect enabled; RAWHEX = server-format pixels)
+        -> "pieces s:x,y,w,h f:x,y,w,h ..."  (s = SendSubrect, f = solid fill)
 -/
 open VncModel VncModel.Proto VncModel.Enc VncModel.Enc.Spec
 
@@ -61,6 +66,10 @@ def dstep (s : DState) (toks : List String) : DState × List String :=
   | "model" :: enc :: w :: h :: snap :: args =>
     match enc.toNat?, w.toNat?, h.toNat?, pixelsOfHex s.fmt.bytespp snap, natList? args with
     | some enc, some w, some h, some px, some args =>
+      if enc = encTight then
+        -- args: [1 if the client's compression level is 0 else 0]
+        (s, [s!"bytes {hex (Server.tightSubrect s.fmt (args.headD 0 == 1) w h px).inflated}"])
+      else
       match Server.modelRect s.fmt enc ⟨w, h⟩ px args with
       | some (some bs) => (s, [s!"bytes {hex bs}"])
       | some none => (s, ["raw"])
@@ -75,6 +84,19 @@ def dstep (s : DState) (toks : List String) : DState × List String :=
       let rs := go l
       (s, ["rects " ++ " ".intercalate (rs.map fun r => s!"{r.x},{r.y},{r.w},{r.h}")])
     | _, _, _ => (s, ["bad-op"])
+  | ["tightplan", last, sb, x, y, w, h, rawhex] =>
+    match last.toNat?, sb.toNat?, x.toNat?, y.toNat?, w.toNat?, h.toNat?, unhex? rawhex with
+    | some last, some sb, some x, some y, some w, some h, some bs =>
+      match readPixels sb (w * h) bs with
+      | some (px, _) =>
+        let arr := px.toArray
+        let raw : Nat → Nat → Pixel := fun ax ay => arr.getD ((ay - y) * w + (ax - x)) 0
+        let ps := if last = 1 then Server.tightRect raw 400 x y w h else (Server.simpleSplit x y w h).map .sub
+        (s, ["pieces " ++ " ".intercalate (ps.map fun p => match p with
+          | .sub r => s!"s:{r.x},{r.y},{r.w},{r.h}"
+          | .fill r => s!"f:{r.x},{r.y},{r.w},{r.h}")])
+      | none => (s, ["bad-op"])
+    | _, _, _, _, _, _, _ => (s, ["bad-op"])
   | "split" :: "zlib" :: rest =>
     match natList? rest with
     | some l =>
